@@ -6,7 +6,7 @@ driver, on the post-Go-chain IR and the documents of every lab case, and compare
 REAL generated code (compiled in the lab from /repo's working tree) answers.  Oracle: the
 property itself, on the real outcomes, from the source term + document + injected fault only.
 """
-import collections, json, os, re, sys
+import collections, hashlib, json, os, re, sys
 import verifkit.core as core
 from verifkit.core import *
 
@@ -244,7 +244,7 @@ class Runner:
         tmp = os.path.join(WORK, "c08_shrink_%d.tsv" % os.getpid())
         want = d.verdict.split(" ")[1] if " " in d.verdict else d.verdict
         try:
-            for rnd in range(6):
+            for rnd in range(4):
                 open(tmp, "w").write(best[0] + "\n")
                 stream = "c08-slice" if (rnd == 0 and d.path != "$") else "c08-drop"
                 cands = [r for r in harness(self.hb, stream, **{"in": tmp})]
@@ -258,6 +258,8 @@ class Runner:
                 _, docs, _, _ = run_stream(self.hb, pinned=tmp, degrade=0)
                 hit = None
                 for x in docs:
+                    if d.kind == "undeclaredKey" and "zzUndeclared" not in x.doc:
+                        continue
                     if x.verdict.startswith("FAIL") and want in x.verdict:
                         size = len(x.case.defs) + len(x.doc)
                         if hit is None or size < hit[0]:
@@ -284,6 +286,8 @@ class Runner:
             if cls in seen:
                 continue
             seen.add(cls)
+            if reported >= 5 or len(seen) > 10:
+                break
             line, stext = self.shrink(d)
             kf = self.match_known(stext)
             if kf:
@@ -318,7 +322,10 @@ def main():
         "the VIR encoder (harness/vir.go) and reader (lean/Cog/IR/Vir.lean); numbers restricted to multiples of 0.25",
         "Go map iteration order: the model reports map entries in document order, reports are compared as sorted lists",
     ]
-    hb, err = build_go("verifharness", "harness", files=FILES, tag="c08")
+    # one binary per source tree, so that runs against a private copy (VERIF_REPO) never swap the
+    # binary under a concurrent run against /repo
+    tag = "c08" if os.path.realpath(core.REPO) == "/repo" else "c08-" + hashlib.sha1(core.REPO.encode()).hexdigest()[:6]
+    hb, err = build_go("verifharness", "harness", files=FILES, tag=tag)
     c.oblige("harness + lab build against the working tree of %s" % core.REPO, hb is not None, err)
     c.lean_obligations(THEOREMS)
     rule = ("documents (valid + exactly one injected fault) against generated source terms in three input formats; "
